@@ -433,6 +433,7 @@ Proof.
   - destruct (req_set_header H c k v) as [H1|] eqn:E1; simpl; [|discriminate].
     intro E; injection E as <-. eapply Inv_req_set_header; [exact I| |exact E1]; apply Ha; simpl; auto.
   - intro E; injection E as <-. exact I.
+  - intro E; injection E as <-. exact I.
 Qed.
 
 Lemma Inv_exec fx H0 ops : forall H H',
